@@ -233,8 +233,16 @@ func fromGoD(x stick.Value, depth int) JV {
 		return numJV(float64(rv.Int()))
 	case reflect.Uint, reflect.Uint8, reflect.Uint16, reflect.Uint32, reflect.Uint64:
 		return numJV(float64(rv.Uint()))
-	case reflect.Float32:
+	case reflect.Float32, reflect.Float64:
 		return numJV(rv.Float())
+	case reflect.String:
+		if _, isStringer := x.(fmt.Stringer); !isStringer {
+			return strJV(rv.String()) // a defined type over string (type colour string)
+		}
+	case reflect.Bool:
+		return JV{T: "bool", B: rv.Bool()}
+	}
+	switch rv.Kind() {
 	case reflect.Slice, reflect.Array:
 		els := make([]JV, rv.Len())
 		for i := range els {
